@@ -436,7 +436,7 @@ def main(tier: str) -> int:
     else:
         bounds = dict(lvals=3, max_batch=3, max_samples=8)
         insts = list(range(len(INSTANTIATIONS)))
-        n_traces, n_ops, tb = 64, 150, 60
+        n_traces, n_ops, tb = 24, 100, 40
     states = trans = 0
     stats = {"edges": 0, "tie_order_differs": 0, "kinds": set(), "inst": 0}
     samples = []
